@@ -36,18 +36,36 @@ Definition snap (c : config) (s : state) : list Z :=
   flat_map (fun e => enc_bool (ahas (e_id e) (d_stored s)) :: zlen (aget (e_id e) (d_stored s)) :: aget (e_id e) (d_stored s)) (toc c) ++
   [zlen (d_out s)] ++ flat_map enc_pkt (d_out s).
 
+(* The correspondence step also feeds the client packets the well-behaved device of the theorems never sends
+   (duplicated / late read and write replies): [XStray p] puts p on the link.  The client-side functions exercised
+   are the same ([step c s EvDeliver]). *)
+Inductive xevent := XE (e : event) | XStray (p : pkt).
+
+Definition xstep (c : config) (s : state) (x : xevent) : option (state * list obs) :=
+  match x with XE e => step c s e | XStray p => Some (dev_push s p, []) end.
+
+Fixpoint xrun (c : config) (s : state) (xs : list xevent) : option (state * list obs) :=
+  match xs with
+  | [] => Some (s, [])
+  | x :: r =>
+    match xstep c s x with
+    | None => None
+    | Some (s1, o1) => match xrun c s1 r with None => None | Some (s2, o2) => Some (s2, o1 ++ o2) end
+    end
+  end.
+
 (* one group = the model events of one atomic step of the implementation (an API call may be several) *)
-Fixpoint trace (c : config) (s : state) (gs : list (list event)) : list Z :=
+Fixpoint trace (c : config) (s : state) (gs : list (list xevent)) : list Z :=
   match gs with
   | [] => []
   | g :: r =>
-    match run c s g with
+    match xrun c s g with
     | None => [-999]
     | Some (s1, o) => zlen o :: flat_map enc_obs o ++ snap c s1 ++ trace c s1 r
     end
   end.
 
-Definition case_trace (c : config) (gs : list (list event)) : list Z :=
+Definition case_trace (c : config) (gs : list (list xevent)) : list Z :=
   enc_bool (wf_cfgb c) :: trace c (init c) gs.
 
 (* Param.set_value alone, both index widths *)
